@@ -321,6 +321,7 @@ Fixpoint rtx_walk (chunks : list schunk) (i : Z) (bytes awnd rwnd : Z) (gate : Z
   | [] => []
   | c :: r =>
     if negb (sc_rtx c) then rtx_walk r (i + 1) bytes awnd rwnd gate
+    else if sc_aband c then rtx_walk r (i + 1) bytes awnd rwnd gate   (* fix 3b069d1: abandoned chunks are skipped *)
     else if (if (i =? 0) && (rwnd <? sc_len c) then false else (bytes + sc_len c >? awnd)) then []
     else if negb (gate (sc_len c)) then []
     else i :: rtx_walk r (i + 1) (bytes + sc_len c) awnd rwnd gate
